@@ -460,6 +460,9 @@ func finish(a *Aggregate, wall time.Duration) int {
 		}
 		newViol++
 		if newViol > 25 {
+			if newViol <= 400 {
+				fmt.Printf("  (more) signature: %s (%dx)\n", sig, g.n)
+			}
 			continue
 		}
 		os.MkdirAll(repDir, 0o755)
